@@ -138,6 +138,8 @@ Applicable(F, R, k) ==
     /\ ("missing_cursor" \in F) => (k = "exch" /\ R.pos >= 0)
     /\ ("trunc_msg" \in F) => Msgs(R) >= 1
     /\ ("rpcerr_hdr" \in F) => ~R.hdr
+    \* the server itself writes error envelopes with other schemas: no declaration to drift from
+    /\ ("schema_drift" \in F) => ~R.exc
 
 \* as-pinned reading of a stream cut at a message boundary: `keep` batch messages survive
 Keeps(F, R) == IF "trunc_msg" \in F /\ ~RequireEOS THEN 0..(Msgs(R) - 1) ELSE {-1}
@@ -182,7 +184,8 @@ OpenExit(R, E, F, k) ==
     IF p # "ok" THEN p
     ELSE IF q # "ok" THEN q
     ELSE IF "trailing" \in F THEN "trailing"
-    ELSE IF k = "exch" /\ E.data # <<>> THEN "init_data"
+    \* (a token batch stripped of its cursor is no longer recognised as one: it counts as data)
+    ELSE IF k = "exch" /\ (E.data # <<>> \/ "missing_cursor" \in F) THEN "init_data"
     ELSE IF k = "exch" /\ E.pos < 0 THEN "no_cursor"
     ELSE IF R.hdr \/ "rpcerr_hdr" \in F THEN "rpcerr"
     ELSE "ok"
